@@ -48,6 +48,7 @@ type Op struct {
 	Lower  bool    `json:"lower,omitempty"`
 	Def    bool    `json:"def,omitempty"` // create with sod.DefaultSchema-like value (no custom descriptors)
 	Ms     int     `json:"ms,omitempty"`
+	Alt    int     `json:"alt,omitempty"` // which of several equivalent API entry points makes the call
 }
 
 type DCons struct {
@@ -422,7 +423,7 @@ func (e *Exec) Run(op Op) {
 		if e.srch[op.Old] == nil {
 			return
 		}
-	case "len", "limit", "reverse", "collect", "one", "sdel":
+	case "len", "limit", "reverse", "collect", "one", "sdel", "uniq", "expects", "expects0":
 		if e.srch[op.Sid] == nil {
 			return
 		}
@@ -558,18 +559,26 @@ func (e *Exec) Run(op Op) {
 		var res string
 		if op.Op == "many" {
 			res = guard(func() string {
+				if op.Alt == 1 && op.Wrong == 0 {
+					objs = sod.ToObjectSlice(ts)
+				}
 				n, err := e.db.InsertOrUpdateMany(objs...)
 				return fmt.Sprintf("%d %s", n, errClass(err))
 			})
 		} else {
 			res = guard(func() string {
-				ch := make(chan sod.Object)
-				go func() {
-					defer close(ch)
-					for _, o := range objs {
-						ch <- o
-					}
-				}()
+				var ch chan sod.Object
+				if op.Alt == 1 {
+					ch = sod.ToObjectChan(ts)
+				} else {
+					ch = make(chan sod.Object)
+					go func() {
+						defer close(ch)
+						for _, o := range objs {
+							ch <- o
+						}
+					}()
+				}
 				n, err := e.db.InsertOrUpdateBulk(ch, op.CS)
 				// drain in case of early return
 				for range ch {
@@ -589,7 +598,16 @@ func (e *Exec) Run(op Op) {
 
 	case "delall":
 		e.curCall = func() string { return "delall" }
-		e.emit("delall", guard(func() string { return errClass(e.db.DeleteAll(&T{})) }))
+		e.emit("delall", guard(func() string {
+			if op.Alt == 1 {
+				it, err := e.db.Iterator(&T{})
+				if err != nil {
+					return errClass(err)
+				}
+				return errClass(e.db.DeleteObjects(it))
+			}
+			return errClass(e.db.DeleteAll(&T{}))
+		}))
 
 	case "get", "getu":
 		u := e.uuidOfK(op.K)
@@ -688,6 +706,16 @@ func (e *Exec) Run(op Op) {
 	case "collect":
 		s := e.srch[op.Sid]
 		e.emit(fmt.Sprintf("collect %d", op.Sid), guard(func() string {
+			if op.Alt == 1 {
+				// Assign: nothing is assigned when the search fails
+				var ts []*T
+				err := s.Assign(&ts)
+				objs := make([]sod.Object, 0, len(ts))
+				for _, t := range ts {
+					objs = append(objs, t)
+				}
+				return e.objsToken(objs, false) + " " + errClass(err)
+			}
 			objs, err := s.Collect()
 			return e.objsToken(objs, false) + " " + errClass(err)
 		}))
@@ -695,6 +723,13 @@ func (e *Exec) Run(op Op) {
 	case "one":
 		s := e.srch[op.Sid]
 		e.emit(fmt.Sprintf("one %d", op.Sid), guard(func() string {
+			if op.Alt == 1 {
+				var t *T
+				if err := s.AssignOne(&t); err != nil {
+					return errClass(err)
+				}
+				return e.objToken(t)
+			}
 			o, err := s.One()
 			if err != nil {
 				return errClass(err)
@@ -702,10 +737,41 @@ func (e *Exec) Run(op Op) {
 			return e.objToken(o.(*T))
 		}))
 
+	case "uniq":
+		// AssignUnique = ExpectsZeroOrN(1) then AssignOne
+		s := e.srch[op.Sid]
+		e.emit(fmt.Sprintf("uniq %d", op.Sid), guard(func() string {
+			var t *T
+			if err := s.AssignUnique(&t); err != nil {
+				return errClass(err)
+			}
+			return e.objToken(t)
+		}))
+
+	case "expects", "expects0":
+		s := e.srch[op.Sid]
+		e.emit(fmt.Sprintf("%s %d %d", op.Op, op.Sid, op.N), guard(func() string {
+			if op.Op == "expects" {
+				s.Expects(int(op.N))
+			} else {
+				s.ExpectsZeroOrN(int(op.N))
+			}
+			return errClass(s.Err())
+		}))
+
 	case "sdel":
 		s := e.srch[op.Sid]
 		e.curCall = func() string { return fmt.Sprintf("sdel %d", op.Sid) }
-		e.emit(fmt.Sprintf("sdel %d", op.Sid), guard(func() string { return errClass(s.Delete()) }))
+		e.emit(fmt.Sprintf("sdel %d", op.Sid), guard(func() string {
+			if op.Alt == 1 {
+				it, err := s.Iterator()
+				if err != nil {
+					return errClass(err)
+				}
+				return errClass(e.db.DeleteObjects(it))
+			}
+			return errClass(s.Delete())
+		}))
 
 	case "aidx":
 		e.emit(fmt.Sprintf("aidx %s", hx(op.Field)), guard(func() string { return e.assignIndex(op.Field) }))
